@@ -196,10 +196,47 @@ def run_large(case):
     return out
 
 
+def run_crowded(case):
+    """k calls (boxes, 2 s apart) present on both sides plus one long band on each side that covers them all and reaches a little
+    further on its own side: every call pairs with itself (affinity 1), and the two bands - whose mutual affinity is lower than
+    their affinity with any single call - pair with each other.  Optimum = k + a(band, band), by construction (any other use of a
+    band costs a whole call)."""
+    out = Out(case)
+    k = case["k"]
+    calls = [mkgeom("BoundingBox", [2.0 * i + 1.0, 1000.0, 2.0 * i + 2.0, 3000.0]) for i in range(k)]
+    T1 = 2.0 * k + 1.0
+    S = calls + [mkgeom("BoundingBox", [0.0, 0.0, T1 + 20.0, 2000.0])]
+    T = [mkgeom(c.type, list(c.coordinates)) for c in calls] + [mkgeom("BoundingBox", [0.0, 2000.0, T1 + 20.0, 4000.0])]
+    # the two bands only share the line f = 2000: give them a thin common strip instead
+    T[-1] = mkgeom("BoundingBox", [0.0, 1990.0, T1 + 20.0, 4000.0])
+    band = float(compute_affinity(S[-1], T[-1]))
+    call_band = max(float(compute_affinity(calls[0], T[-1])), float(compute_affinity(S[-1], calls[0])))
+    out.transitions = out.validated = 1
+    out.nontrivial = True
+    if not (0 < band < call_band < 0.5 and float(compute_affinity(calls[0], calls[0])) == 1.0):
+        out.vac("optimal")
+        out.klass = "crowded:construction_fails"
+        return out
+    cls = {"fn": FN, "kind": "crowded", "n": k + 1}
+    try:
+        result = list(match_geometries(S, T))
+    except Exception as e:  # noqa
+        out.fail("covers_once", ["raised", type(e).__name__, str(e)[:200]], "a list of matches", dict(cls, exc=type(e).__name__))
+        return out
+    total = sum(e[2] for e in result if e[0] is not None and e[1] is not None)
+    best = k + band
+    out.expect("optimal", total >= best - 1e-9, {"total": total, "pairs": sorted((e[0], e[1]) for e in result if e[0] is not None and e[1] is not None)[-3:]},
+               {"optimum": best}, dict(cls, kind="crowded_sum_below_optimum"))
+    out.klass = "crowded:%s" % ("ok" if not out.viol else "viol")
+    return out
+
+
 def run_block(block, rec):
     if block.get("space") == "large":
         for n in (31, 32, 33, 40):
             rec.add(run_large({"space": "large", "n": n}))
+        for k in (7, 8, 9, 12, 20):
+            rec.add(run_case({"space": "crowded", "k": k}))
         return
     pool, L, b, k, of = block["pool"], block["max_len"], block["buf"], block["shard"], block["of"]
     p = len(POOLS[pool])
@@ -276,6 +313,8 @@ def _plain(result):
 def run_case(case):
     if case.get("space") == "large":
         return run_large(case)
+    if case.get("space") == "crowded":
+        return run_crowded(case)
     out = Out(case)
     pool, b = case["pool"], case["buf"]
     src, tgt = list(case["src"]), list(case["tgt"])
